@@ -403,6 +403,10 @@ pub trait Elem: Sized + 'static {
     fn dup(&self) -> Self {
         Self::mk(self.get())
     }
+    /// identity of a drop-tracked element (no liveness check), None for plain kinds
+    fn ident(&self) -> Option<u32> {
+        None
+    }
 }
 
 impl Elem for Tracked {
@@ -413,6 +417,9 @@ impl Elem for Tracked {
     }
     fn get(&self) -> u32 {
         self.observe()
+    }
+    fn ident(&self) -> Option<u32> {
+        Some(self.id)
     }
 }
 
@@ -513,7 +520,7 @@ impl Elem for String {
         format!("s{v}")
     }
     fn get(&self) -> u32 {
-        self[1..].parse().unwrap_or(u32::MAX)
+        self.as_str().get(1..).and_then(|s| s.parse().ok()).unwrap_or(u32::MAX)
     }
 }
 
